@@ -143,6 +143,12 @@ pub fn unary(t: &Type) -> String {
 }
 
 pub fn binary(a: &Type, bb: &Type) -> String {
+    watch_case(&format!("type functions on ({}, {})", enc(a), enc(bb)));
+    let s = binary_(a, bb);
+    watch_idle();
+    s
+}
+fn binary_(a: &Type, bb: &Type) -> String {
     let mut s = format!(
         "promote={};pne={};ccl={};ebt={};eutc={};shape={};edims={}",
         enc(&types::promote_types(a, bb)),
@@ -184,8 +190,10 @@ pub fn run(args: &[String]) {
         for i in 0..count {
             let k = if all { i } else { rng.below(total) };
             let (a, bb, c) = (&u[(k / (n * n)) as usize], &u[((k / n) % n) as usize], &u[(k % n) as usize]);
+            watch_case(&format!("promote_types on the triple ({}, {}, {})", enc(a), enc(bb), enc(c)));
             let l = types::promote_types(&types::promote_types(a, bb), c);
             let r = types::promote_types(a, &types::promote_types(bb, c));
+            watch_idle();
             writeln!(w, "ty3\t{}\t{}\t{}\tl={};r={}", enc(a), enc(bb), enc(c), enc(&l), enc(&r)).unwrap();
         }
     }
